@@ -20,23 +20,32 @@ Proof.
     intros H; injection H as <-. constructor; [eapply norm_dim_lt; eauto | apply IH; reflexivity].
 Qed.
 
-Definition first_ok (ix : list index) : Prop := match ix with IBools _ :: _ => False | _ => True end.
 
+Lemma true_pos_bounds l : forall a, Forall (fun e => a <= e < a + length l) (true_pos a l).
+Proof.
+  induction l as [|b l IH]; intros a; cbn [true_pos length]; [constructor|].
+  assert (H : Forall (fun e => a <= e < a + S (length l)) (true_pos (S a) l)).
+  { eapply Forall_impl; [|apply IH]. cbn. intros e He. lia. }
+  destruct b; [constructor; [lia|exact H]|exact H].
+Qed.
+
+(* data selection and grid selection along the batch dimension agree, for every index form *)
 Lemma first_grid_rel gs n i0 sel :
-  length gs = n -> index_first n i0 = Some sel -> first_ok [i0] ->
+  length gs = n -> index_first n i0 = Some sel ->
   match sel with
   | SInt e => grid_index gs i0 = GSOne (nth e gs 0) /\ e < n
   | SList l => grid_index gs i0 = GSMany (map (fun e => nth e gs 0) l) /\ Forall (fun e => e < n) l
   end.
 Proof.
-  intros HL Hi Hok. destruct i0 as [z|a b c|l|l|]; cbn [index_first grid_index] in *; rewrite ?HL.
+  intros HL Hi. destruct i0 as [z|a b c|l|l|]; cbn [index_first grid_index] in *; rewrite ?HL.
   - unfold norm_idx in *. destruct (norm_dim n z) as [e|] eqn:E; [|discriminate]. injection Hi as <-.
     split; [reflexivity | eapply norm_dim_lt; eauto].
   - destruct (slice_sel n a b c) as [l|] eqn:E; [|discriminate]. injection Hi as <-.
     split; [reflexivity | eapply slice_sel_lt; eauto].
   - unfold norm_idxs in *. destruct (norm_dims n l) as [l'|] eqn:E; [|discriminate]. injection Hi as <-.
     split; [reflexivity | eapply norm_dims_lt; eauto].
-  - destruct Hok.
+  - destruct (length l =? n) eqn:E; [|discriminate]. apply Nat.eqb_eq in E. injection Hi as <-.
+    split; [reflexivity|]. eapply Forall_impl; [|apply (true_pos_bounds l 0)]. cbn. intros e He. lia.
   - discriminate.
 Qed.
 
@@ -68,10 +77,10 @@ Proof.
 Qed.
 
 Theorem getitem_finish_sound fl sh gs multi ix :
-  wf_val gshape (mkT sh (TBatch fl gs)) -> first_ok ix ->
+  wf_val gshape (mkT sh (TBatch fl gs)) ->
   res_sound gshape [mkT sh (TBatch fl gs)] (getitem_finish gshape fl sh gs multi ix).
 Proof.
-  intros Hwf Hok. unfold getitem_finish.
+  intros Hwf. unfold getitem_finish.
   destruct (index_data sh ix) as [e|d|ds] eqn:ED; try exact I.
   destruct ix as [|i0 rest]; [exact I|].
   match goal with |- context [if ?c then _ else _] => destruct c end; [exact I|].
@@ -80,8 +89,7 @@ Proof.
   cbn [index_data] in ED. destruct sh as [|n s']; [discriminate ED|]. cbn [nent] in HL.
   destruct (index_first n i0) as [sel|] eqn:EI; [|discriminate ED].
   destruct (index_rest s' rest) as [t|] eqn:ERest; [|destruct sel; discriminate ED].
-  assert (Hok0 : first_ok [i0]) by (destruct i0; auto).
-  pose proof (first_grid_rel gs n i0 sel HL EI Hok0) as Hrel.
+  pose proof (first_grid_rel gs n i0 sel HL EI) as Hrel.
   destruct sel as [e|l]; destruct Hrel as (-> & Hlt); injection ED as <-;
     match goal with |- context [if ?c then _ else _] => destruct c end; try exact I;
     match goal with |- context [if ?c then _ else _] => destruct c end; try exact I;
@@ -112,23 +120,30 @@ Proof.
     + intros ax Hfl. exists (0, nth i l 0). split; [left; reflexivity|]. unfold arg_axes; cbn. auto.
 Qed.
 
-(* every non-tuple form except the bare Ellipsis and boolean masks *)
+(* every non-tuple form: int, slice, index list / tensor / array, boolean mask, bare Ellipsis *)
 Theorem getitem_one_sound fl sh gs i :
   wf_val gshape (mkT sh (TBatch fl gs)) ->
-  match i with IEll | IBools _ => False | _ => True end ->
   res_sound gshape [mkT sh (TBatch fl gs)] (run_op gshape gaxes (OGetItem (GOne i)) [mkT sh (TBatch fl gs)]).
 Proof.
-  intros Hwf Hi. unfold run_op; cbn [nth t_kind t_shape getitem_batch].
-  destruct i; try destruct Hi; apply getitem_finish_sound; auto; exact I.
+  intros Hwf. unfold run_op; cbn [nth t_kind t_shape getitem_batch].
+  destruct i; try (apply getitem_finish_sound; exact Hwf).
+  (* batch[...] *)
+  unfold one_kind. destruct (make_instance gshape fl sh gs) as [er|k] eqn:EK; [exact I|].
+  apply make_instance_ok in EK. destruct EK as (fl' & -> & H4' & HF' & Hax).
+  unfold wf_val in Hwf; cbn [t_kind t_shape] in Hwf. destruct Hwf as (HL & H4 & HF).
+  unfold res_sound, out_sound; cbn [v_kind v_shape v_src val_of d_shape d_src].
+  split; [unfold wf_val, val_of; cbn [t_kind t_shape v_shape v_kind]; repeat split; auto|].
+  intros j Hj. rewrite nth_ident_src by lia. split; [apply coherent_single|]. split.
+  - exists (0, j). split; [left; reflexivity|]. unfold entry_grid; cbn. now apply nth_error_nth'.
+  - intros ax Hfl. exists (0, j). split; [left; reflexivity|]. unfold arg_axes; cbn. auto.
 Qed.
 
-(* tuple forms: whatever the resolution of ellipses yields, provided it does not start with a mask *)
+(* every tuple form, whatever the resolution of ellipses yields *)
 Theorem getitem_tuple_sound fl sh gs l :
   wf_val gshape (mkT sh (TBatch fl gs)) ->
-  (forall ix, resolve_ell (ndim sh) l = Some ix -> first_ok ix) ->
   res_sound gshape [mkT sh (TBatch fl gs)] (run_op gshape gaxes (OGetItem (GTup l)) [mkT sh (TBatch fl gs)]).
 Proof.
-  intros Hwf Hr. unfold run_op; cbn [nth t_kind t_shape getitem_batch].
+  intros Hwf. unfold run_op; cbn [nth t_kind t_shape getitem_batch].
   destruct (resolve_ell (ndim sh) l) as [ix|] eqn:E; [|exact I].
   apply getitem_finish_sound; auto.
 Qed.
@@ -160,19 +175,31 @@ Proof. revert n i. induction l as [|x l IH]; intros [|n] [|i] H; cbn; auto; try 
 Lemma nth_skipn_add {A} (l : list A) n i d : nth i (skipn n l) d = nth (n + i) l d.
 Proof. revert l. induction n as [|n IH]; intros [|x l]; cbn; auto. destruct i; reflexivity. Qed.
 
-(* ImageBatch.narrow(0, start, length): the grids are narrowed like the data *)
-Theorem narrow_method_batch_sound fl sh gs st len :
+(* ImageBatch.narrow(dim, start, length) along the batch dimension (dim = 0 or dim = -ndim): the grids are narrowed like
+   the data *)
+Theorem narrow_method_batch_sound fl sh gs z st len :
   wf_val gshape (mkT sh (TBatch fl gs)) ->
-  res_sound gshape [mkT sh (TBatch fl gs)] (run_op gshape gaxes (ONarrowM 0%Z st len) [mkT sh (TBatch fl gs)]).
+  (z = 0 \/ z = - Z.of_nat (ndim sh))%Z ->
+  res_sound gshape [mkT sh (TBatch fl gs)] (run_op gshape gaxes (ONarrowM z st len) [mkT sh (TBatch fl gs)]).
 Proof.
-  intros Hwf. unfold run_op; cbn [nth t_kind t_shape data_sem nth_shape Z.eqb].
+  intros Hwf Hz. unfold run_op; cbn [nth t_kind t_shape].
   unfold wf_val in Hwf; cbn [t_kind t_shape] in Hwf. destruct Hwf as (HL & H4 & HF).
   destruct sh as [|n s']; [unfold ndim in H4; cbn in H4; lia|]. cbn [nent] in HL.
-  assert (Hn : norm_dim (ndim (n :: s')) 0 = Some 0).
-  { unfold norm_dim, ndim. cbn [length]. destruct ((0 <=? 0)%Z && (0 <? Z.of_nat (S (length s')))%Z) eqn:E; [reflexivity|].
-    apply andb_false_iff in E. destruct E as [E|E]; [discriminate|]. apply Z.ltb_ge in E. lia. }
-  rewrite Hn. cbn [nth Nat.eqb].
+  assert (Hn : norm_dim (ndim (n :: s')) z = Some 0).
+  { unfold norm_dim, ndim in *. cbn [length] in *. destruct Hz as [-> | ->].
+    - destruct ((0 <=? 0)%Z && (0 <? Z.of_nat (S (length s')))%Z) eqn:E; [reflexivity|].
+      apply andb_false_iff in E. destruct E as [E|E]; [discriminate|]. apply Z.ltb_ge in E. lia.
+    - destruct ((0 <=? - Z.of_nat (S (length s')))%Z && (- Z.of_nat (S (length s')) <? Z.of_nat (S (length s')))%Z) eqn:E.
+      + apply andb_true_iff in E. destruct E as [E _]. apply Z.leb_le in E. lia.
+      + destruct ((- Z.of_nat (S (length s')) <=? - Z.of_nat (S (length s')))%Z && (- Z.of_nat (S (length s')) <? 0)%Z) eqn:E2.
+        * f_equal. lia.
+        * apply andb_false_iff in E2. destruct E2 as [E2|E2]; [apply Z.leb_gt in E2|apply Z.ltb_ge in E2]; lia. }
+  assert (Hz' : ((if (z <? 0)%Z then (z + Z.of_nat (ndim (n :: s')))%Z else z) =? 0)%Z = true).
+  { destruct Hz as [-> | ->]; [reflexivity|]. unfold ndim; cbn [length].
+    destruct (- Z.of_nat (S (length s')) <? 0)%Z eqn:E; [apply Z.eqb_eq; lia|apply Z.ltb_ge in E; lia]. }
+  cbn [data_sem nth_shape nth]. rewrite Hn. cbn [nth Nat.eqb].
   destruct (st + len <=? n) eqn:El; [|exact I]. apply Nat.leb_le in El.
+  cbv zeta. rewrite Hz'.
   unfold one_kind. cbn [d_shape d_src set_nth firstn skipn app].
   destruct (make_instance gshape fl (len :: s') (py_slice gs st (st + len))) as [er|k] eqn:EK; [exact I|].
   apply make_instance_ok in EK. destruct EK as (fl' & -> & H4' & HF' & Hax).
@@ -189,11 +216,9 @@ Qed.
 
 (* deep copies and pickling preserve type, grids and axes for every class; copy.copy for image classes *)
 Theorem copy_preserves c v :
-  (c = CCopy -> kind_axes (t_kind v) = None) ->
   run_op gshape gaxes (OCopy c) [v] = OOne (mkO (t_shape v) (t_kind v) (ident_src 0 (nent (t_shape v)))).
 Proof.
-  intros Hc. unfold run_op; cbn [nth]. destruct v as [sh k]; cbn [t_kind t_shape] in *.
-  destruct k as [|fl gs|fl g]; [reflexivity| |]; destruct c; cbn [kind_axes] in *; try reflexivity;
-    rewrite (Hc eq_refl); reflexivity.
+  unfold run_op; cbn [nth]. destruct v as [sh k]; cbn [t_kind t_shape] in *.
+  destruct k as [|fl gs|fl g]; reflexivity.
 Qed.
 End GetItem.
